@@ -77,3 +77,9 @@ claim("C09",
   "Decides that the wire tables the codec implements are the standard's for all 45 messages and all field values at once - the oracle is the specification table, not the library's own constants, so a wrong IEI, swapped mandatory field or one- instead of two-octet length is a violated row - and that the constructors the emulator uses put the right message type, EPD and IEI constants into the messages they build. Two genuine deviations of the pinned library are listed as known findings (F13 Last visited registered TAI TV8 vs TV7, F14 Requested QoS rules TLV vs TLV-E).",
   "Level 'other'. The standard's table was transcribed by hand (no specification text offline) and vetted row by row; MappedEPSBearerContexts in the modification messages follows the library's release (IEI 0x7F). Not decided: semantic contents of IE values.",
   "DESIGN.md §5 C09")
+
+claim("C12",
+  "writer/reader table agreement (extractor's IEI table vs the library's own PDU SESSION ESTABLISHMENT ACCEPT codec model and TS 24.501 8.3.2), linear-form comparison of every fixed offset with the layout computed from the library's message definitions, classification of the element-skip forms of the walk, loop-progress analysis with wrap-aware intervals, known-bad-idiom rule (unaligned byte search)",
+  "Decides for all network-chosen lengths at once that the extractor's offsets and skip table line up with the message layout (they are linear in the variable lengths, and the linear forms are compared, so QoS-rule or container lengths cannot shift them), that the IE walks step over whole elements, and - for arbitrary input - that every back edge of both loops strictly advances the index, which is the termination clause of the property.",
+  "Level 'other'. Not decided: equality of extracted values for encodings outside the assumed APER shape (length determinants >= 128), panics on truncated input (termination by panic). R12.pos (ProtocolIEs.List[2]) is informational only.",
+  "DESIGN.md §5 C12")
